@@ -167,7 +167,7 @@ func c06Gen(r *rand.Rand, tier string, prog func(name string, decls []string, ma
 	}
 	// random programs; a program whose real run produces more than maxOps monitor operations
 	// is dropped (deterministically: generation and execution are deterministic)
-	n, maxOps := 40, 500
+	n, maxOps := 120, 700
 	if tier == "thorough" {
 		n, maxOps = 1500, 900
 	}
